@@ -38,6 +38,7 @@ type Contract struct {
 	Modifies    []Clause
 	Asserts     []Clause
 	Uses        []Clause
+	Ghosts      []ghostDecl
 	Cases       []caseSplit
 	Flags       map[string]bool
 	HintNames   []string
@@ -50,6 +51,11 @@ func (c *Contract) Key() string {
 		return c.Recv + "." + c.Name
 	}
 	return c.Name
+}
+
+type ghostDecl struct {
+	Name     string
+	TypeExpr string
 }
 
 type caseSplit struct {
@@ -94,7 +100,7 @@ type ContractSet struct {
 	Lemmas    []*Lemma
 }
 
-var kwRe = regexp.MustCompile(`^(func|def|recdef|opaque|reveal|mapinv|lemma|assert|use|cases|props|circuit|plain|requires|ensures|honest|loop|modifies|flag|hint|sound_ensures|complete_ensures|sound_requires|complete_requires)\b`)
+var kwRe = regexp.MustCompile(`^(func|def|recdef|opaque|reveal|mapinv|lemma|assert|use|ghost|cases|props|circuit|plain|requires|ensures|honest|loop|modifies|flag|hint|sound_ensures|complete_ensures|sound_requires|complete_requires)\b`)
 
 func endsOpen(s string) bool {
 	s = strings.TrimSpace(s)
@@ -358,6 +364,12 @@ func parseClause(c *Contract, t string, no int) error {
 		for _, fl := range strings.Fields(rest) {
 			c.Flags["reveal:"+fl] = true
 		}
+	case "ghost":
+		fs := strings.Fields(rest)
+		if len(fs) < 2 {
+			return fmt.Errorf("ghost <name> <type>")
+		}
+		c.Ghosts = append(c.Ghosts, ghostDecl{Name: fs[0], TypeExpr: strings.TrimSpace(rest[len(fs[0]):])})
 	case "use":
 		cl, err := mk("")
 		if err != nil {
